@@ -40,6 +40,7 @@ struct Scenario {
     readers_long: usize,
     readers_mapped: usize,
     pollers: usize,
+    copiers: usize,
     millis: u64,
 }
 
@@ -49,6 +50,8 @@ fn run_scenario(sc: &Scenario, out_violations: &Mutex<Vec<(String, String)>>) ->
     mem.write("w0", "w", b"0");
     let cache = AssetCache::with_source(mem.clone());
     let h = cache.load::<TWide>("w0").unwrap();
+    mem.write("w0", "wc", b"0");
+    let hc = cache.load::<TWideC>("w0").unwrap();
     let started = AtomicU64::new(0);
     let finished = AtomicU64::new(0);
     let stop = AtomicBool::new(false);
@@ -112,6 +115,21 @@ fn run_scenario(sc: &Scenario, out_violations: &Mutex<Vec<(String, String)>>) ->
                 }
             });
         }
+        for i in 0..sc.copiers {
+            let (stop_r, report_r, reads_r) = (&stop, &report, &reads);
+            s.spawn(move || {
+                // readers that never hold a guard themselves: copied() / cloned()
+                while !stop_r.load(Ordering::Relaxed) {
+                    let c = if i % 2 == 0 { hc.copied() } else { hc.cloned() };
+                    if uniform(&c.0).is_none() {
+                        let first = c.0[0];
+                        let at = c.0.iter().position(|w| *w != first).unwrap_or(0);
+                        report_r("torn-read", format!("copied()/cloned() value: word 0 = {first}, word {at} = {}", c.0[at]));
+                    }
+                    reads_r.fetch_add(1, Ordering::Relaxed);
+                }
+            });
+        }
         for _ in 0..sc.pollers {
             s.spawn(|| {
                 // C06: watcher.reloaded() then read()
@@ -159,8 +177,9 @@ fn run_scenario(sc: &Scenario, out_violations: &Mutex<Vec<(String, String)>>) ->
         while t0.elapsed() < Duration::from_millis(sc.millis) {
             k += 1;
             mem.write("w0", "w", format!("{k}").as_bytes());
+            mem.write("w0", "wc", format!("{k}").as_bytes());
             let target = EVENTS_HANDLED.load(Ordering::SeqCst) + 1;
-            mem.send(vec![OwnedDirEntry::File("w0".into(), "w".into())]);
+            mem.send(vec![OwnedDirEntry::File("w0".into(), "w".into()), OwnedDirEntry::File("w0".into(), "wc".into())]);
             if !wait_events(target) {
                 report("infrastructure", "event not dequeued within 10 s".into());
                 break;
@@ -188,10 +207,10 @@ fn run_scenario(sc: &Scenario, out_violations: &Mutex<Vec<(String, String)>>) ->
 pub fn run(a: &Args) {
     let ms = if a.thorough() { 8000 } else { 1200 };
     let scenarios = vec![
-        Scenario { readers_short: 2, readers_long: 0, readers_mapped: 0, pollers: 0, millis: ms },
-        Scenario { readers_short: 1, readers_long: 2, readers_mapped: 1, pollers: 1, millis: ms },
-        Scenario { readers_short: 3, readers_long: 3, readers_mapped: 2, pollers: 2, millis: ms },
-        Scenario { readers_short: 0, readers_long: 1, readers_mapped: 0, pollers: 1, millis: ms / 2 },
+        Scenario { readers_short: 2, readers_long: 0, readers_mapped: 0, pollers: 0, copiers: 2, millis: ms },
+        Scenario { readers_short: 1, readers_long: 2, readers_mapped: 1, pollers: 1, copiers: 1, millis: ms },
+        Scenario { readers_short: 3, readers_long: 3, readers_mapped: 2, pollers: 2, copiers: 2, millis: ms },
+        Scenario { readers_short: 0, readers_long: 1, readers_mapped: 0, pollers: 1, copiers: 0, millis: ms / 2 },
     ];
     let violations = Mutex::new(vec![]);
     let mut total_reloads = 0;
@@ -204,8 +223,8 @@ pub fn run(a: &Args) {
         total_reads += rd;
         n += 1;
         samples.push(format!(
-            "{{\"kind\": \"readers vs reload stream\", \"short\": {}, \"long_held\": {}, \"mapped\": {}, \"pollers\": {}, \"reloads\": {}, \"guarded_reads\": {}}}",
-            sc.readers_short, sc.readers_long, sc.readers_mapped, sc.pollers, r, rd
+            "{{\"kind\": \"readers vs reload stream\", \"short\": {}, \"long_held\": {}, \"mapped\": {}, \"pollers\": {}, \"copied_cloned\": {}, \"reloads\": {}, \"guarded_reads\": {}}}",
+            sc.readers_short, sc.readers_long, sc.readers_mapped, sc.pollers, sc.copiers, r, rd
         ));
     }
     let v = violations.into_inner().unwrap();
